@@ -722,7 +722,6 @@ func renameRoot(v abs.Value, tag string) abs.Value {
 
 func sortStrings(s []string) []string { sort.Strings(s); return s }
 
-
 // ---- C18 clause (c) and the field-error part of (b): paths and locations of field errors ----
 
 var c18Layouts = []abs.Layout{
